@@ -10,4 +10,7 @@ EXPLANATION = (
     "bounded stand-in.")
 ASSUMED = ["A-FOLD: a loop whose every iteration satisfies the step contract computes the fold of that step over the record sequence"]
 from pyvc.check import standin_bounded
-BOUNDED = [standin_bounded("C08")]
+from pyvc.check import external_bounded
+BOUNDED = [standin_bounded("C08"),
+           external_bounded("deep-schema:C08", "standin.deep", ["C08", "--n", "150"], ["C08", "--n", "800"],
+                            "nested schema (containers of oneof-carrying / field-less messages, two-level lazy parents, float maps, Duration JSON strings); observation-based oracle")]
